@@ -499,8 +499,8 @@ def eval_wrap_case(case, keep_dir=None):
         stats["tool_runs"] += 1
         stats["fault.hash_seed"] += 1
         if r["rc"] != 0 or r["output"] is None:
-            # C18's business (rejects a supported header); nothing to run here
-            return {"violation": None, "findings": [], "stats": stats, "skipped": "tool failed"}
+            # no processed header, no wrappers: every entry of this header is without one
+            return {"violation": {"class": "wrap.no_header", "site": "tool", "msg": "the post-processor produced no header for a header of the supported shape (exit %s): %s" % (r["rc"], r["stderr"].replace("\n", " | ")[:300])}, "findings": [], "stats": stats}
         text = r["output"].decode("utf-8", "replace")
         nv = wrapsim.check_names(d, model, config, r["out_path"])
         if nv:
@@ -546,7 +546,7 @@ def _eval_wrap_case_cpp(case, model, header, config, d, stats):
     stats["fault.hash_seed"] += 1
     stats["cpp_headers"] = 1
     if r["rc"] != 0 or r["output"] is None:
-        return {"violation": None, "findings": [], "stats": stats, "skipped": "tool failed"}
+        return {"violation": {"class": "wrap.no_header", "site": "tool", "msg": "the post-processor produced no C++ header for a header of the supported shape (exit %s): %s" % (r["rc"], r["stderr"].replace("\n", " | ")[:300])}, "findings": [], "stats": stats}
     out_hpp = r["out_path"] + "pp"
     os.replace(r["out_path"], out_hpp)
     types = hdrgen.object_types_cpp(model)
@@ -842,18 +842,25 @@ def intres_violation(text):
         for m in ms.split():
             sig = fields.get(m)
             if sig is None:
-                continue
+                return {"class": "intres.entry_not_coded", "site": "%s::%s" % (name, m), "msg": "method %s::%s is marked to use integer results, but its trait's vtable has no entry of that name" % (name, m)}
             if not sig.replace(" ", "").endswith("->i32"):
                 return {"class": "intres.entry_not_coded", "site": "%s::%s" % (name, m), "msg": "method %s::%s is marked to use integer results, but its vtable entry is `%s`: it does not return the integer code" % (name, m, sig[-120:])}
     return None
 
 
 def order_violation(text):
+    for line in text.splitlines():
+        if line.startswith("UNPARSABLE "):
+            return {"class": "expand.rejects_corpus", "site": "expansion", "msg": line[:300]}
     decl, structs, inits = parse_projection(text)
+    if not decl and not structs and not inits:
+        return {"class": "expand.rejects_corpus", "site": "expansion", "msg": "the projection of the expansion is empty: no trait, no structure, no vtable initialiser"}
     for t, methods in sorted(decl.items()):
         vt = structs.get(t + "Vtbl")
         if vt is None:
-            continue
+            # a trait of the corpus whose vtable cannot be found in its own expansion: nothing
+            # about its layout can be said, which is not the same as "in order"
+            return {"class": "layout.vtable_missing", "site": t, "msg": "the expansion of trait %s contains no repr(C) structure %sVtbl" % (t, t)}
         got = [f for f, _ in vt if not f.startswith("_")]
         if got != methods:
             return {"class": "layout.vtable_order", "site": t, "msg": "vtable of %s has slots %r but the trait declares %r (one function pointer per exported method, in declaration order)" % (t, got, methods)}
